@@ -144,6 +144,83 @@ type received struct {
 	arrived     time.Time
 	sent        time.Time
 	respStart   time.Time
+	length      int64 // the request's framing as the server saw it: declared length (-1: unknown) ...
+	chunked     bool  // ... and chunked transfer encoding
+}
+
+// plainFraming tells how a request of this shape reaches a server when it is sent by a plain http.Client: the declared
+// content length and whether the body is chunked. Only for bodies whose length net/http knows or that are absent/empty
+// (for others the transport decides by probing the body against a timer). Answers are cached per process.
+var framing struct {
+	once sync.Once
+	srv  *httptest.Server
+	mu   sync.Mutex
+	lmu  sync.Mutex
+	last [2]int64
+	memo map[string][2]int64
+}
+
+func makeBodyReader(kind string, body []byte) io.Reader {
+	switch kind {
+	case "nobody":
+		return http.NoBody
+	case "buffer":
+		return bytes.NewBuffer(append([]byte(nil), body...))
+	case "bytes-reader":
+		return bytes.NewReader(body)
+	case "strings-reader":
+		return strings.NewReader(string(body))
+	case "seekable":
+		return newSeekBody(body)
+	case "stream":
+		return &streamBody{data: body}
+	case "empty":
+		return bytes.NewReader(nil)
+	}
+	return nil
+}
+
+func plainFraming(method, kind string, body []byte) (length int64, chunked bool, ok bool) {
+	if kind == "seekable" || kind == "stream" {
+		return 0, false, false
+	}
+	framing.once.Do(func() {
+		framing.memo = map[string][2]int64{}
+		framing.srv = httptest.NewServer(http.HandlerFunc(func(w http.ResponseWriter, r *http.Request) {
+			c := int64(0)
+			for _, te := range r.TransferEncoding {
+				if te == "chunked" {
+					c = 1
+				}
+			}
+			framing.lmu.Lock()
+			framing.last = [2]int64{r.ContentLength, c}
+			framing.lmu.Unlock()
+			io.Copy(io.Discard, r.Body)
+			w.WriteHeader(200)
+		}))
+	})
+	framing.mu.Lock()
+	defer framing.mu.Unlock()
+	key := fmt.Sprintf("%s|%s|%d", method, kind, len(body))
+	if v, hit := framing.memo[key]; hit {
+		return v[0], v[1] == 1, true
+	}
+	req, err := http.NewRequest(method, framing.srv.URL+"/", makeBodyReader(kind, body))
+	if err != nil {
+		return 0, false, false
+	}
+	resp, err := framing.srv.Client().Do(req)
+	if err != nil {
+		return 0, false, false
+	}
+	io.Copy(io.Discard, resp.Body)
+	resp.Body.Close()
+	framing.lmu.Lock()
+	last := framing.last
+	framing.lmu.Unlock()
+	framing.memo[key] = last
+	return last[0], last[1] == 1, true
 }
 
 type ctxObs struct {
@@ -183,7 +260,10 @@ func runHTTP(sc httpScenario) (out httpOut) {
 	srv := httptest.NewUnstartedServer(http.HandlerFunc(func(w http.ResponseWriter, r *http.Request) {
 		mu.Lock()
 		idx := len(got)
-		rc := &received{method: r.Method, uri: r.URL.RequestURI(), headers: r.Header.Clone(), arrived: time.Now()}
+		rc := &received{method: r.Method, uri: r.URL.RequestURI(), headers: r.Header.Clone(), arrived: time.Now(), length: r.ContentLength}
+		for _, te := range r.TransferEncoding {
+			rc.chunked = rc.chunked || te == "chunked"
+		}
 		got = append(got, rc)
 		mu.Unlock()
 		var a attemptScript
@@ -298,25 +378,7 @@ func runHTTP(sc httpScenario) (out httpOut) {
 	defer srv.Close()
 
 	// ---- the request ----
-	var rdr io.Reader
-	switch sc.BodyKind {
-	case "nil":
-		rdr = nil
-	case "nobody":
-		rdr = http.NoBody
-	case "buffer":
-		rdr = bytes.NewBuffer(append([]byte(nil), body...))
-	case "bytes-reader":
-		rdr = bytes.NewReader(body)
-	case "strings-reader":
-		rdr = strings.NewReader(string(body))
-	case "seekable":
-		rdr = newSeekBody(body)
-	case "stream":
-		rdr = &streamBody{data: body}
-	case "empty":
-		rdr = bytes.NewReader(nil)
-	}
+	rdr := makeBodyReader(sc.BodyKind, body)
 	hasBody := sc.BodyKind != "nil" && sc.BodyKind != "nobody" && sc.BodyKind != "empty" && sc.BodySize > 0
 	wantBody := []byte{}
 	if hasBody {
@@ -503,6 +565,9 @@ func runHTTP(sc httpScenario) (out httpOut) {
 			if !reflect.DeepEqual(vals, want) {
 				return fail("attempt-differs", "attempt %d carries the header %s as %q, the original request has %q", i+1, h[0], vals, want)
 			}
+		}
+		if wl, wc, ok := plainFraming(sc.Method, sc.BodyKind, body); ok && (rc.length != wl || rc.chunked != wc) {
+			return fail("attempt-differs", "attempt %d reached the server with content length %d chunked=%v; the same request sent by a plain http.Client arrives with content length %d chunked=%v", i+1, rc.length, rc.chunked, wl, wc)
 		}
 		if sc.Jar && sc.Via == "request" {
 			if vals := rc.headers.Values("Cookie"); !reflect.DeepEqual(vals, []string{"sid=1"}) {
